@@ -3,6 +3,7 @@
   command receives from the KEY=VALUE options (model-param, scorer-param, ...) is a function of the command line.
   Theorems about Batchie.Model.ArgParse (model of src/batchie/cli/argument_parsing.py KVAppendAction /
   str_to_bool), tied by harness/c18.py stream `kvargs` (driver ops args.kv / args.bool).
+  `C18Args_accept_iff_one_eq`: an occurrence is accepted exactly when it contains exactly one `=`.
   `C18Args_last_wins`: for every accepted command line the value of a key is the value of its LAST occurrence.
 -/
 import Batchie.Model.ArgParse
@@ -213,5 +214,24 @@ theorem C18Args_last_wins (args : List (List Char)) (d : List (List Char × List
 
 example : kvAppendAll ["a=1".toList, "b=2".toList, "a=3".toList] =
     some [("a".toList, "3".toList), ("b".toList, "2".toList)] := by decide
+
+/-- an occurrence is accepted exactly when it contains exactly one `=` -/
+theorem C18Args_accept_iff_one_eq (s : List Char) : (kvParse s).isSome ↔ s.count '=' = 1 := by
+  constructor
+  · intro h
+    obtain ⟨⟨k, v⟩, hp⟩ := Option.isSome_iff_exists.mp h
+    obtain ⟨hs, hk, hv⟩ := (C18Args_kvParse_ok_iff s k v).mp hp
+    rw [hs, List.count_append, List.count_cons_self, List.count_eq_zero.mpr hk, List.count_eq_zero.mpr hv]
+  · intro h
+    cases hc : cut '=' s with
+    | none =>
+      have := (cut_none '=' s).mp hc
+      rw [List.count_eq_zero.mpr this] at h; cases h
+    | some p =>
+      obtain ⟨a, rest⟩ := p
+      obtain ⟨hs, ha⟩ := (cut_some '=' s a rest).mp hc
+      rw [hs, List.count_append, List.count_cons_self, List.count_eq_zero.mpr ha] at h
+      have hr : '=' ∉ rest := List.count_eq_zero.mp (by omega)
+      rw [(C18Args_kvParse_ok_iff s a rest).mpr ⟨hs, ha, hr⟩]; rfl
 
 end Batchie.Props.C18Args
